@@ -11,6 +11,7 @@ mod c10;
 mod c11;
 mod attgen;
 mod c14;
+mod c16;
 mod c17;
 mod c19;
 mod olpc;
@@ -82,6 +83,7 @@ fn main() {
         "C13" => e2e_props::run(&cfg, "C13"),
         "C15" => e2e_props::run(&cfg, "C15"),
         "C14" => c14::run(&cfg),
+        "C16" => c16::run(&cfg),
         "C17" => c17::run(&cfg),
         "C19" => c19::run(&cfg),
         "C20" => c20::run(&cfg),
